@@ -8,6 +8,7 @@ usage: selftest/mutants.py [name ...]      (writes selftest/mutants_results.json
 import json
 import os
 import re
+import shutil
 import subprocess
 import sys
 import tempfile
@@ -134,9 +135,7 @@ def main():
                              "harness": [l[:200] for l in c.stdout.splitlines() if l.startswith("HARNESS")][:2]}
             print("%-45s %s baseline=%s rc=%d %s" % (name, prop, passed[-1:] or "?", c.returncode, classes),
                   flush=True)
-            for fn in os.listdir(os.path.join(VERIF, "replays")):
-                if fn.endswith(".json"):
-                    os.remove(os.path.join(VERIF, "replays", fn))
+            shutil.rmtree("/dev/shm/verif_scratch_replays", ignore_errors=True)
     finally:
         sh(["git", "-C", "/repo", "worktree", "remove", "--force", wt])
     json.dump(results, open(out_path, "w"), indent=1, sort_keys=True)
